@@ -476,8 +476,16 @@ def parseLine(raw, eols=(CRLF, LF, CR ), kind="event line"):
 
         line = raw[:index]
         index += len(eol)  # strip eol
+        # eol is CR at very end of raw so a LF that arrives next completes a CRLF
+        split = (eol == CR and index == len(raw) and CRLF in eols)
         del raw[:index] # remove used bytes
         (yield line)
+        while split:  # line already yielded so next byte when LF is not another eol
+            if raw:
+                if raw[0:1] == LF:
+                    del raw[0:1]
+                break
+            (yield None)  # wait for next byte
     return
 
 def parseLeader(raw, eols=(CRLF, LF), kind="leader header line", headers=None):
